@@ -30,6 +30,12 @@ def step (line : String) : String :=
   | ["encspec", v] => withTree v fun v => "ok " ++ hexOfBytes (JV.encodeSpec v)
   | ["encinto", p, v] => withHex p fun p => withTree v fun v => showRes hexOfBytes (writeToVec p v)
   | ["dec", h] => withHex h fun b => showRes showJV (parseJsonb b)
+  -- oracle ops: the model answers with the SPEC value (what the theorems say the
+  -- implementation must return); `skip` outside the theorem's domain
+  | ["rtdec", v] => withTree v fun v =>
+      if JV.goodTop v then "ok " ++ showJV (JV.norm v) else "skip"
+  | ["rtenc", v] => withTree v fun v =>
+      if JV.goodTop v then "ok " ++ hexOfBytes (JV.encodeSpec v) else "skip"
   | ["good", v] => withTree v fun v => showBool (JV.goodTop v)
   | _ => badReq
 
